@@ -114,5 +114,5 @@ LSpec == LInit /\ [][LNext]_<<lvars, last>>
 LTypeOK == off8 \in 0..7 /\ maxa \in {1, 2, 4, 8}
 \* alignment invariant of the rule itself: every field starts at a multiple of its alignment
 LEmit == PrintT(<<"EDGE", ToJson([src |-> [o |-> off8, a |-> maxa], dst |-> [o |-> off8', a |-> maxa'],
-                                  ev |-> [kind |-> last'.name]])>>)
+                                  ev |-> [kind |-> last'.name, gs |-> last'.gs, ga |-> last'.ga]])>>)
 =============================================================================
